@@ -26,7 +26,11 @@ from harness.core import Case, ImplResult, fbits, from_fbits, close
 
 PID = 'C03'
 LEAN_MODULES = ['ThermoVerif.Props.C03']
-RULE = ('1–4 equilibrium calls on one real (Multi)Stream: a grid over chemical packages (volatile only; LLE-capable; '
+RULE = ('1–4 equilibrium calls on one real (Multi)Stream, 40% of the random cases (and a grid per package and family) being '
+        'REUSE HISTORIES: 2–4 calls through the stream\'s cached VLE/LLE/SLE objects (and vlle) with flows edited in between '
+        '(material added to the phase where it does not belong without changing the set of chemicals, amounts changed, '
+        'chemicals added / removed, re-distribution), every call judged by the oracle and mirrored by the model incl. '
+        '`_setup`\'s reuse-or-rebuild decision; otherwise: a grid over chemical packages (volatile only; LLE-capable; '
         'with gas-locked N2/O2/CO2 and liquid/solid-locked Glucose/NaCl; a solute/solvent package) x non-empty subsets x '
         'initial distribution over phases x operation (VLE with T-P, P-V, T-V, P-H, P-S, T-H, T-S, T-x, P-x, T-y, P-y; '
         'LLE with/without top chemical and on the cached-K path; SLE at T, H, given solubility; vlle), then random '
@@ -45,7 +49,20 @@ ASSUMPTIONS = [
     'no chemical is classified both gas-only and non-volatile',
     'VLE._lever_rule is modelled with the repair of fixes_proposed/C03-1.md (vapour flow limited to what is there); '
     'on the tree as found the check reports negative-flow:vle:lever-rule',
-    'reactive flashes (gas_conversion / liquid_conversion) are outside the property (they change per-chemical totals by design)',
+    'EXCLUDED ENTRY POINTS (reactive flash; they change per-chemical totals by design): VLE.__call__ / Stream.vle / '
+    'MultiStream.vle with gas_conversion= or liquid_conversion= (Reaction, ReactionItem, KineticReaction or handle), hence '
+    'the conversion branches of set_thermal_condition, set_TV, set_PV, set_PH (the `+ dz*F_mol_vle`, `_dmol_vle`, `_dF_mol` '
+    'paths), of _solve_v_fixed_point / xVlogK_iter / xVlogK_iter_2n, and BubblePoint.solve_Ty/solve_Py / '
+    'DewPoint.solve_Tx/solve_Px called with a conversion; also not exercised: VLE.method = "shgo" '
+    '(solve_vle_vapor_mol_shgo, whose result _solve_v does not clip), LLE.method = "shgo" / "differential evolution" '
+    '(their output is the same unconstrained parameter mol_L), LLE.__call__(update=False), the separate '
+    'thermosteam.equilibrium.vlle.VLLE class',
+    'the bubble- / dew-limited branches of set_TV / set_PV are recognised by recomputing them from the recorded bubble / '
+    'dew composition bit for bit; the per-chemical cap is part of the model (theorem limited_cap), monitored: 0 <= V <= 1, '
+    'composition >= 0, F_mol >= 0',
+    'object identity of the cached solver objects is part of the protocol (`vle.begin <obj>`, `sle.begin <obj>`): the driver '
+    'keeps `_nonzero`/`_index` (VLE) and `_nonzero`/`_index`/`_chemical` (SLE) per object, and `vle.setup` / `sle.setup` '
+    'compare the reuse decision and the index with the real object',
     'for a stream that also has s/L rows, a VLE call only owns the l and g rows; the placement clauses are evaluated on those',
     'min-flow tolerance: -1e-12*max(1, total flow): set_flows/clip/correction steps are exactly sign-preserving in '
     'binary64 (x-y>=0 when y<=x; f*x<=x for f<=1), only the LLE renormalisation (z - mol_L)*F_mol can round below zero by '
@@ -83,6 +100,8 @@ class Rec:
         self.vlle = None         # dict while inside Stream.vlle
         self.depth = 0
         self.single = False
+        self.objs = None         # per-case list of equilibrium objects (index+1 = object id on the protocol)
+        self.specV = None; self.y_bubble = None; self.x_dew = None
 
     # ---- state -----------------------------------------------------------
     def dense(self):
@@ -109,6 +128,13 @@ class Rec:
 
     def tag(self, t):
         self.tags.append(t)
+
+    def oid(self, obj):
+        objs = self.objs if self.objs is not None else []
+        for k, o in enumerate(objs):
+            if o is obj: return k + 1
+        objs.append(obj)
+        return len(objs)
 
     # ---- helpers ---------------------------------------------------------
     def expand(self, index, vals):
@@ -214,6 +240,23 @@ def _flush_pairs(rec, owner):
             rec.tag('sle:frac'); rec.emit(f'sle.frac {j} {fbits(L)}')
 
 
+def _limited(rec, vle, vapor_data, total_data):
+    """Is this `set_flows(v, mol)` the bubble- or dew-limited branch of set_TV / set_PV?  Recomputed from the recorded
+    bubble / dew composition exactly as the code does; accepted only on a bit-for-bit match."""
+    if rec.specV is None: return None
+    v = np.asarray(vapor_data, float); mol = np.asarray(total_data, float); F = float(vle._F_mol)
+    for V in (float(rec.specV), 1. - 1e-3, 1e-3):
+        if rec.y_bubble is not None and rec.y_bubble.shape == v.shape:
+            c = rec.y_bubble * (F * V)
+            c = np.where(c > mol, mol, c)
+            if (c == v).all(): return ('bublim', V, rec.y_bubble)
+        if rec.x_dew is not None and rec.x_dew.shape == v.shape:
+            l = rec.x_dew * F * (1. - V)
+            l = np.where(l > mol, mol, l)
+            if ((mol - l) == v).all(): return ('dewlim', V, rec.x_dew)
+    return None
+
+
 def _install():
     """Wrap the solver boundaries.  Wrappers are transparent when no recorder is active."""
     eq = tmo.equilibrium
@@ -242,15 +285,17 @@ def _install():
         rec = _REC
         if rec is None: return o_setup(self, gas_conversion, liquid_conversion)
         rec.ctx.append('setup'); rec.vle = self; rec.pending.clear(); rec.single = False
+        old_nz = self._nonzero
         try:
             return o_setup(self, gas_conversion, liquid_conversion)
         finally:
             rec.ctx.pop()
-            # `_setup` raises NoEquilibrium before touching `_index` when there is no l+g material at all
+            # `_setup` raises NoEquilibrium before touching `_nonzero` / `_index` when there is no l+g material at all
             empty = not (self._imol['l'] + self._imol['g']).any()
             idx = '' if empty else ','.join(str(int(i)) for i in self._index)
-            rec.tag('vle:setup')
-            rec.emit('vle.setup', rec.state_ans(f' idx={idx}'))
+            reuse = '-' if empty else str(int(self._nonzero is old_nz))
+            rec.tag('vle:setup' + (':reuse' if reuse == '1' else ''))
+            rec.emit('vle.setup', rec.state_ans(f' idx={idx} reuse={reuse}'))
     VLE._setup = _setup
 
     o_fp = VLE._solve_v_fixed_point
@@ -286,9 +331,29 @@ def _install():
         if vle is not None and vapor_data is getattr(vle, '_v', None):
             rec.tag('vle:setflows:reg'); rec.emit('vle.setflows reg')
         else:
-            rec.tag('vle:setflows:lit'); rec.emit('vle.setflows ' + rec.fl(rec.expand(index, vapor_data)))
+            lim = _limited(rec, vle, vapor_data, total_data) if vle is not None else None
+            if lim is not None:
+                kind, V, comp = lim
+                rec.tag('vle:' + kind); rec.emit(f'vle.{kind} {fbits(V)} ' + rec.fl(rec.expand(index, comp)))
+            else:
+                rec.tag('vle:setflows:lit'); rec.emit('vle.setflows ' + rec.fl(rec.expand(index, vapor_data)))
     o_set_flows = vle_mod.set_flows
     vle_mod.set_flows = set_flows
+
+    # bubble / dew point results (needed to recognise the bubble- / dew-limited branches of set_TV / set_PV)
+    for cls, names, attr in ((vle_mod.BubblePoint, ('solve_Ty', 'solve_Py'), 'y_bubble'),
+                             (vle_mod.DewPoint, ('solve_Tx', 'solve_Px'), 'x_dew')):
+        for nm in names:
+            def mk(orig, attr):
+                def f(self, *a, **k):
+                    r = orig(self, *a, **k)
+                    rec = _REC
+                    if rec is not None and isinstance(r, tuple) and len(r) == 2:
+                        try: setattr(rec, attr, np.array(r[1], float))
+                        except Exception: pass
+                    return r
+                return f
+            setattr(cls, nm, mk(getattr(cls, nm), attr))
 
     o_lever = VLE._lever_rule
     def _lever_rule(self, x, y):
@@ -335,7 +400,8 @@ def _install():
         rec = _REC
         if rec is None: return o_vcall(self, **kw)
         if rec.vlle is not None: _vlle_before_vle(rec)
-        rec.emit('vle.begin')
+        rec.specV = kw.get('V'); rec.y_bubble = rec.x_dew = None
+        rec.emit(f'vle.begin {rec.oid(self)}')
         try:
             return o_vcall(self, **kw)
         finally:
@@ -409,25 +475,45 @@ def _install():
 
     # -- SLE --------------------------------------------------------------------
     o_upd = SLE._update_solubility
-    def _update_solubility(self, x):
+    def _update_solubility(self, x, *a, **k):
         rec = _REC
-        if rec is None: return o_upd(self, x)
+        if rec is None: return o_upd(self, x, *a, **k)
         rec.ctx.append('sleupd')
-        try: r = o_upd(self, x)
+        try: r = o_upd(self, x, *a, **k)
         finally: rec.ctx.pop()
-        index = self._index
-        idx = 'all' if isinstance(index, slice) else ','.join(str(int(i)) for i in index)
+        index = a[0] if a else k.get('index')       # (explicit index since a9c296c; `None` -> self._index)
+        idx = 'reg' if index is None else 'all' if isinstance(index, slice) else ','.join(str(int(i)) for i in index)
         rec.tag('sle:update')
         rec.emit(f'sle.update {int(self._solute_index)} {idx} {fbits(float(x))} {fbits(float(self._mol_solute))}')
         return r
     SLE._update_solubility = _update_solubility
+
+    o_ssetup = SLE._setup
+    def s_setup(self):
+        rec = _REC
+        if rec is None: return o_ssetup(self)
+        res = 'ok'
+        try:
+            return o_ssetup(self)
+        except RuntimeError as e:
+            res = 'err nosolute' if 'no solute' in str(e) else 'err other'; raise
+        except ValueError:
+            res = 'err notindexed'; raise
+        except BaseException:
+            res = 'err other'; raise
+        finally:
+            index = self._index
+            idx = 'all' if isinstance(index, slice) else ','.join(str(int(i)) for i in index)
+            rec.tag('sle:setup:' + res.replace(' ', '-'))
+            rec.emit(f'sle.setup {int(self._solute_index)}', f'{res} idx={idx} pure={int(bool(self._chemical))}')
+    SLE._setup = s_setup
 
     o_scall = SLE.__call__
     def scall(self, solute, T=None, P=None, H=None, solubility=None):
         rec = _REC
         if rec is None: return o_scall(self, solute, T, P, H, solubility)
         rec.pending.clear()
-        rec.emit('sle.begin')
+        rec.emit(f'sle.begin {rec.oid(self)}')
         try:
             return o_scall(self, solute, T, P, H, solubility)
         finally:
@@ -567,7 +653,8 @@ def run_ops(ops):
     global _REC
     model_in, outs, failures, tags = [], [], [], []
     s = None; pkg = None
-    moved = False; normal = 0; sol_used = False
+    moved = False; normal = 0
+    objs = []       # equilibrium objects met in this case (kept alive so that identities stay distinct)
     sig_parts = []
     for oi, line in enumerate(ops):
         t = line.split(' ')
@@ -605,12 +692,28 @@ def run_ops(ops):
             outs.append(rec.state_ans())
             continue
         if s is None: continue
+        if op in ('add', 'zero', 'scale'):
+            # edits between two calls of a history; they go through `imol` only, so the stream keeps its cached
+            # VLE / LLE / SLE objects (and what those remember: `_nonzero`, `_index`, `_chemical`, `_K`, ...)
+            try:
+                if not isinstance(s, tmo.MultiStream):
+                    tags.append('skip:edit-single-phase'); continue
+                if op == 'add':          # add ph:i:amount,ph:i:amount
+                    for item in t[1].split(','):
+                        ph, i, amt = item.split(':')
+                        if ph in s.phases:
+                            ID = pkg['ids'][int(i)]
+                            s.imol[ph, ID] = float(s.imol[ph, ID]) + float(amt)
+                elif op == 'zero':       # zero i,j : remove chemicals from every phase
+                    for i in t[1].split(','):
+                        for ph in s.phases: s.imol[ph, pkg['ids'][int(i)]] = 0.
+                else:
+                    s.imol.data *= float(t[1])
+                tags.append('edit:' + op)
+            except Exception as e:
+                tags.append('skip:edit:' + type(e).__name__)
+            continue
         kw = _kw(t[1:])
-        if op == 'sle':
-            if 'solubility' in kw: sol_used = True
-            elif sol_used:
-                # would read out of bounds inside numba code (see the note in `_sle_op`); never executed
-                tags.append('skip:sle-stale-index'); continue
         rec = Rec(s, pkg)
         before = rec.dense()
         exc = None
@@ -659,6 +762,7 @@ def run_ops(ops):
             tags.append('skip:prep:' + type(e).__name__)
             continue
         rec.s = s      # (Stream.vle may have re-classed the stream object in place)
+        rec.objs = objs
         # reaching the equilibrium object through the public property may re-label / re-shape the phases
         # (Stream.vle: 's' -> 'l'; Stream.sle: 'g' -> 'l'; MultiStream: rows added): that is C12's subject, the
         # model is told the state the equilibrium call starts from
@@ -873,14 +977,9 @@ def _lle_ops(rng, pkgname, k=1):
     return ops
 
 
-def _sle_op(rng, pkgname, only_solubility=False):
-    # NOTE (thermosteam defect outside C03, reported for C15): after `sle(..., solubility=x)` the SLE object keeps
-    # `_index = slice(None)`; a later call without `solubility` then feeds a full-length composition to the
-    # activity-coefficient kernel compiled for the 2-3 indexed chemicals -> out-of-bounds read in numba code
-    # (garbage solubility, or a segmentation fault of the interpreter).  The generator never produces that sequence.
+def _sle_op(rng, pkgname, only_solubility=False):   # (second argument kept for callers; unused since a9c296c)
     solute = 'Tetradecanol' if pkgname == 'D' and rng.random() < 0.9 else rng.choice(PKG_IDS[pkgname])
     r = rng.random()
-    if only_solubility: r = 0.7
     if r < 0.55: return f'sle solute={solute} T={round(rng.uniform(270, 340), 2)}'
     if r < 0.85:
         x = rng.choice([-0.1, 0.0, 1e-6, round(rng.random(), 4), round(rng.random() * 0.2, 4), 0.999999, 1.0, 1.5])
@@ -954,14 +1053,101 @@ def random_case(rng):
     return Case(ops, {})
 
 
+def _edit(rng, pkgname, phases, present):
+    """an edit between two calls of a history; most keep the set of present chemicals (so `_setup` re-uses its
+    index) and put material into the phase where the previous call cannot have left it"""
+    n = len(PKG_IDS[pkgname])
+    pk = {'A': ([], []), 'B': ([], []), 'C': ([3, 4], [5, 6]), 'D': ([4], [])}[pkgname]
+    light = [i for i in pk[0] if i in present]; heavy = [i for i in pk[1] if i in present]
+    vol = [i for i in PKG_VLE[pkgname] if i in present]
+    r = rng.random()
+    amt = lambda: repr(_flow(rng))
+    if r < 0.30 and (light or heavy):                       # non-partitioning chemical into the "wrong" phase
+        items = [f'l:{i}:{amt()}' for i in light if 'l' in phases and rng.random() < 0.8]
+        items += [f'g:{i}:{amt()}' for i in heavy if 'g' in phases and rng.random() < 0.8]
+        items += [f'{rng.choice(phases)}:{i}:{amt()}' for i in light + heavy if rng.random() < 0.3]
+        if items: return 'add ' + ','.join(items)
+    if r < 0.55 and present:                                # more of some present chemicals, any phase
+        ks = rng.sample(sorted(present), rng.randrange(1, min(3, len(present)) + 1))
+        return 'add ' + ','.join(f'{rng.choice(phases)}:{i}:{amt()}' for i in ks)
+    if r < 0.65: return f'scale {rng.choice([0.5, 2.0, 10.0, 0.125, 3.0])}'
+    if r < 0.78:                                            # a chemical that was absent appears: index must be rebuilt
+        absent = [i for i in range(n) if i not in present]
+        if absent:
+            i = rng.choice(absent); present.add(i)
+            return f'add {rng.choice(phases)}:{i}:{amt()}'
+    if r < 0.88 and len(present) > 1:                       # a chemical disappears
+        i = rng.choice(sorted(present)); present.discard(i)
+        return f'zero {i}'
+    if r < 0.94 and vol:                                    # same chemicals, everything re-distributed
+        rows = _distribute(rng, n, sorted(present), list(phases), 'random')
+        return 'setrows ' + _fmt_rows(rows)
+    return None
+
+
+def history_case(rng, fam=None, pkgname=None):
+    """2-4 calls on ONE stream through its cached solver objects, flows edited in between"""
+    fam = fam or rng.choice(['vle'] * 5 + ['lle', 'lle', 'sle', 'sle', 'vlle', 'mixed', 'mixed'])
+    pkgname = pkgname or (rng.choice('DDDC') if fam == 'sle' else rng.choice('ABBCCCD'))
+    n = len(PKG_IDS[pkgname])
+    subset = [i for i in range(n) if rng.random() < 0.7] or [rng.randrange(n)]
+    if fam == 'sle' and pkgname == 'D' and 1 not in subset: subset.append(1)
+    phases = {'vle': 'gl', 'lle': 'lL', 'sle': 'ls', 'vlle': 'Lgl', 'mixed': rng.choice(['Lgl', 'glLs', 'gls'])}[fam]
+    new, rows = _new(rng, pkgname, sorted(subset), phases, rng.choice(['first', 'last', 'alternate', 'random']))
+    ops = [new]
+    present = set(subset)
+    lleT = round(rng.uniform(290, 350), 2)
+    for k in range(rng.randrange(2, 5)):
+        f = fam if fam != 'mixed' else rng.choice(['vle', 'vle', 'lle', 'sle', 'vlle'])
+        z0 = None
+        if f == 'vle':
+            kinds = VLE_KINDS[:5] * 3 + VLE_KINDS[5:7] + (VLE_KINDS[7:] * 2 if len([i for i in PKG_VLE[pkgname] if i in present]) == 2 else [])
+            ops.append(_vle_op(rng, rng.choice(kinds), z0))
+        elif f == 'lle':
+            top = rng.choice([None, None] + PKG_IDS[pkgname])
+            T = lleT if rng.random() < 0.7 else round(lleT + rng.choice([1e-4, -1e-4, 5e-4, -3.0, 2.0]), 4)
+            ops.append(f'lle T={T}' + (f' top={top}' if top else ''))
+        elif f == 'sle': ops.append(_sle_op(rng, pkgname))
+        else: ops.append(_vlle_op(rng))
+        e = _edit(rng, pkgname, phases, present)
+        if e and f == 'lle' and rng.random() < 0.5:
+            e = f'scale {1 + rng.choice([1e-7, -1e-7, 1e-3])}' if rng.random() < 0.5 else e   # stay inside / leave the cache tolerance
+        if e: ops.append(e)
+    return Case(ops, {'history': fam})
+
+
+def grid_histories(rng):
+    """for every package: a call, material put into the phase where it does not belong (same chemicals), the call
+    again; then a chemical added / removed, and the call again -- for VLE, LLE, SLE and vlle"""
+    out = []
+    for pkgname in 'ABCD':
+        for fam in ('vle', 'lle', 'sle', 'vlle', 'mixed'):
+            for _ in range(2):
+                out.append(history_case(rng, fam, pkgname))
+    # the two shapes reported by the coordinator, spelled out
+    out.append(Case(['new C multi gl 330.0 101325.0 g:0.0,0.0,0.0,2.0,1.0,0.0,0.0|l:10.0,5.0,1.0,0.0,0.0,1.0,0.5',
+                     'vle T=350.0 P=101325.0', 'add l:3:0.75,l:4:0.25,g:5:0.5,g:6:0.125', 'vle T=350.0 P=101325.0',
+                     'add l:3:2.0,g:5:1.0', 'vle P=101325.0 V=0.5', 'add l:4:1.0,g:6:1.0', 'vle P=101325.0 Hq=0.4'],
+                    {'history': 'wrong-phase'}))
+    out.append(Case(['new D multi ls 300.0 101325.0 l:10.0,5.0,0.0,0.0,0.0|s:0.0,1.0,0.0,0.0,0.0',
+                     'sle solute=Tetradecanol T=300.0', 'add s:1:4.0', 'sle solute=Tetradecanol T=300.0',
+                     'add l:1:7.5', 'sle solute=Tetradecanol Hq=0.9', 'scale 0.5', 'sle solute=Tetradecanol T=305.0'],
+                    {'history': 'sle-amount'}))
+    out.append(Case(['new D multi ls 300.0 101325.0 l:0.0,5.0,0.0,0.0,0.0|s:0.0,1.0,0.0,0.0,0.0',
+                     'sle solute=Tetradecanol T=300.0', 'add l:0:10.0,l:2:1.0', 'sle solute=Tetradecanol T=300.0',
+                     'add s:1:2.0', 'sle solute=Tetradecanol T=320.0'], {'history': 'sle-pure-then-solvent'}))
+    return out
+
+
 def generate(rng, tier, index, nworkers):
     b = budget(tier)
     grid = grid_cases(random.Random(rng.random()))
     # the same grid in every worker would need the same rng: derive it from the tier-level seed instead
+    grid = grid + grid_histories(random.Random(rng.random()))
     for k, c in enumerate(grid):
         if k % nworkers == index: yield c
     for _ in range(max(1, b['cases'] // nworkers)):
-        yield random_case(rng)
+        yield history_case(rng) if rng.random() < 0.4 else random_case(rng)
 
 
 def corpus():
